@@ -262,7 +262,13 @@ void vfps::FokkerPlanckMap::applyTo(PhaseSpace::Position &pos) const
         }
         break;
     case FPTracking::stochastic:
-        pos.y -= pos.y*_dampdecr+_normdist(_prng);
+        {
+        // damping acts towards zero energy (not towards grid index zero)
+        const meshaxis_t ycenter = _axis[1]->zerobin();
+        pos.y -= (pos.y-ycenter)*_dampdecr+_normdist(_prng);
+        pos.y = std::max( static_cast<meshaxis_t>(1)
+                        , std::min(pos.y, static_cast<meshaxis_t>(_ysize-1)));
+        }
         break;
     }
 }
